@@ -463,6 +463,8 @@ func c16Stability(w *W, r *rand.Rand, g *c16Gen) {
 	// (a name is the operator in operator position and the variable everywhere else)
 	varName := func(vi int) string {
 		switch vi {
+		case 4:
+			return "operator" // a variable that happens to be called like the class key of the other kind
 		case 6:
 			return "add"
 		case 7:
